@@ -1021,6 +1021,10 @@ func (c *Conn) handlePackets() (wasProcessed bool, _ error) {
 		if c.qlogger != nil && wire.IsLongHeaderPacket(p.data[0]) {
 			datagramID = qlog.CalculateDatagramID(p.data)
 		}
+		// Account for the received bytes here, and not in handleOnePacket:
+		// Packets that can't be decrypted yet are queued and passed to handleOnePacket again
+		// once the keys become available. Their bytes must only count once towards the amplification limit.
+		c.sentPacketHandler.ReceivedBytes(p.Size(), p.rcvTime)
 		processed, err := c.handleOnePacket(p, datagramID)
 		if err != nil {
 			return false, err
@@ -1051,8 +1055,6 @@ func (c *Conn) handlePackets() (wasProcessed bool, _ error) {
 }
 
 func (c *Conn) handleOnePacket(rp receivedPacket, datagramID qlog.DatagramID) (wasProcessed bool, _ error) {
-	c.sentPacketHandler.ReceivedBytes(rp.Size(), rp.rcvTime)
-
 	if wire.IsVersionNegotiationPacket(rp.data) {
 		return false, c.handleVersionNegotiationPacket(rp)
 	}
